@@ -58,6 +58,12 @@ func doPanic(kind string, tok int) {
 		panic(nil)
 	case "bigstring":
 		panic("boom-" + strconv.Itoa(tok) + ":" + Result(tok, 20000))
+	case "abort":
+		panic(http.ErrAbortHandler) // the sentinel net/http treats specially
+	case "ctxerr":
+		panic(context.Canceled)
+	case "eof":
+		panic(io.EOF)
 	}
 }
 
@@ -251,6 +257,7 @@ func fnv(b []byte) uint32 {
 func (a *API) ReadAll(ctx context.Context, tok int, r io.Reader) (string, error) {
 	t := a.enter(ctx, tok)
 	defer a.leave(t)
+	a.e.Arrive() // barrier family: nobody reads before every handler has its stream
 	var got []byte
 	obs := ""
 	readAll := func(bufSize int) error {
@@ -584,6 +591,7 @@ type Proxy struct {
 	Add            func(ctx context.Context, tok int, delta int64) (int64, error)
 	Sub            func(ctx context.Context, tok int) (<-chan int, error)
 	SubRetry       func(ctx context.Context, tok int) (<-chan int, error) `rpc_method:"T.Sub" retry:"true"`
+	SubAlias       func(ctx context.Context, tok int) (<-chan int, error)
 	SubT           func(ctx context.Context, tok int) (<-chan SubElem, error)
 	Rev            func(ctx context.Context, tok int) (string, error)
 	ReadAll        func(ctx context.Context, tok int, r io.Reader) (string, error)
